@@ -408,7 +408,7 @@ def gen(tier, rng):
         for d in ((-2, 0, 1, 3) if q else range(-3, 4)):
             sr = _ulps((k + .5) / 600., d)
             big = k + 2
-            if (n_ + d) % 2:
+            if (n_ + d) % 2 and k < 2000:      # (the int16 test recording of reader_flat holds row numbers * 3)
                 yield dict(p=PID, op='reader_flat', sizes=[2 * big + 3, big, max(1, big - 1)], nch=1 + n_ % 2, offset=0,
                            sr=sr, tie_ulps=d)
             else:
